@@ -305,6 +305,23 @@ def built_refs_case(draw):
     return {"ver": "2.0", "doc": out, "corruptions": [], "route": "constructor-built-refs", "targets": targets}
 
 
+BARE_SCO_TYPES = ["mutex", "url", "ipv4-addr", "software", "artifact", "mac-addr", "autonomous-system", "x509-certificate", "user-account", "file", "directory"]
+
+
+@st.composite
+def bundle_foreign_member_case(draw):
+    """A valid bundle of either version plus one member that is no top-level object of any version: a STIX 2.0 cyber observable
+    on its own (no id; such objects exist only inside an observed-data container)."""
+    ver = draw(st.sampled_from(["2.0", "2.1"]))
+    doc = draw(G.bundle(ver, opts=dict(OPTS, minimal=True), min_members=0, max_members=2))
+    t = draw(st.sampled_from(BARE_SCO_TYPES))
+    bare = draw(G.sco_container("2.0", dict(OPTS, member_types=[t], no_extensions=True)))["0"]
+    members = list(doc.get("objects", []))
+    members.insert(draw(st.integers(0, len(members))), bare)
+    doc = dict(doc, objects=members)
+    return {"ver": ver, "doc": doc, "corruptions": [], "route": draw(st.sampled_from(["parse", "parse-auto", "constructor"])), "foreign": t}
+
+
 def run(ctx):
     ctx.level = "fault_enumeration"
     ctx.rule = ("valid base objects of every type/version from the spec-model generator (minimal / maximal / random) x EVERY single-point "
@@ -392,6 +409,14 @@ def run(ctx):
 
     # 2.0 objects referring to already-built 2.1 objects whose identifiers are legal only in 2.1
     core.run_given(ctx, built_refs_case(), body_built, ctx.n(150, 1500), label="c02-built-refs")
+
+    # bundles with a member that is not a top-level object (a bare 2.0 observable)
+    def body_bundle(case):
+        fails = check_case(case)
+        ctx.note(case, True, ["bundle-foreign-member:" + case["foreign"], "route:" + case["route"], "bundle:" + case["ver"]],
+                 fp=core.fingerprint([case["ver"], case["foreign"], case["route"], len(case["doc"]["objects"])]))
+        ctx.handle(case, fails)
+    core.run_given(ctx, bundle_foreign_member_case(), body_bundle, ctx.n(120, 1200), label="c02-bundle-foreign-member")
 
     # the eight fixed TLP instances, every corruption, every route (finite: enumerated completely)
     ctx.collect_only = True
